@@ -526,124 +526,84 @@ RULES = {"ENC-1": enc1, "ENC-2": enc2, "ENC-3": enc3, "ENC-4": enc4, "ENC-6": en
 # ENC-5 special operands (PSH/PUL register lists, TFR/EXG register pairs)
 
 def enc5(ctx, c):
-    from ..consteval import fold, NotConst, try_fold
-    from ..model import body_without_doc
+    """ENC-5: SpecialOperand.translate() folded for every mnemonic and every register (list / pair) of a finite universe:
+    the post-byte equals the datasheet's, and everything the CPU cannot do is rejected."""
+    from ..consteval import fold_body, Raised, NotConst, Struct
+    from ..inline import flatten
     repo = ctx.repo
     fn = repo.method("SpecialOperand", "translate", inherited=False)
     where = repo.loc(fn, fn.node)
-    regs = ctx.env.get("REGISTERS")
-    if not isinstance(regs, list):
-        c.undecided("SpecialOperand.translate", "REGISTERS-not-constant", "", where)
-        return
-    branches = [n for n in body_without_doc(fn.node) if isinstance(n, ast.If) and "mnemonic" in U(n.test)]
-    pp = next((b for b in branches if "PSHS" in U(b.test)), None)
-    te = next((b for b in branches if "TFR" in U(b.test)), None)
-    if pp is None or te is None:
-        raise AnalysisError("ENC-5: PSH/PUL or TFR/EXG branch of SpecialOperand.translate not found")
-    mnems = try_fold(pp.test.comparators[0], ctx.env) if isinstance(pp.test, ast.Compare) else None
-    c.check(sorted(mnems or []) == ["PSHS", "PSHU", "PULS", "PULU"], "SpecialOperand.translate:PSH/PUL:mnemonics", "PSHS PSHU PULS PULU", "branch covers %s" % mnems,
-            "the register-list branch covers %s" % mnems, repo.loc(fn, pp))
-    # ---- PSH/PUL
-    loop = next((n for n in ast.walk(pp) if isinstance(n, ast.For)), None)
-    if loop is None:
-        c.undecided("SpecialOperand.translate:PSH/PUL", "register-loop-not-found", "", repo.loc(fn, pp))
-    else:
-        rv = U(loop.target)
-        pre = []      # assignments before the loop (own_stack / other_stack)
-        for st in pp.body:
-            if st is loop:
-                break
-            if isinstance(st, ast.Assign) and isinstance(st.targets[0], ast.Name):
-                pre.append(st)
-        arms = [st for st in loop.body if isinstance(st, ast.AugAssign) and isinstance(st.op, ast.BitOr)]
-        rejects = [st for st in loop.body if isinstance(st, ast.If) and st.body and isinstance(st.body[-1], ast.Raise)]
-        c.floor("PSH/PUL mask arms", len(arms), 8)
-        n_ok = 0
+    node = flatten(repo, fn, depth=2)
+    eff, _ = ctx.effective_rows()
+
+    def run(mnemonic, operand):
+        env = dict(ctx.env)
+        row = eff.get(mnemonic)
+        env.update({"self.instruction.mnemonic": mnemonic, "self.operand_string": operand,
+                    "self.instruction.mode.imm": row.modes["imm"][0] if row else 0, "self.instruction.mode.imm_sz": row.modes["imm"][1] if row else 2})
+        try:
+            r = fold_body(node.body, env, ctors=("CodePackage", "NumericValue", "NoneValue"))
+        except Raised as e:
+            return ("rejected", e.name)
+        if isinstance(r, Struct) and r.cls == "CodePackage":
+            pb = r.kw.get("post_byte")
+            if isinstance(pb, Struct) and pb.args and isinstance(pb.args[0], int):
+                return ("post", pb.args[0])
+        raise NotConst("translate() did not fold to a CodePackage with a constant post byte: %r" % (r,))
+
+    regs = ["A", "B", "D", "X", "Y", "U", "S", "CC", "DP", "PC"]
+    probes = ["Z", "W", "", "x", "a", "d", "pc", "u", "s", " X", "X "]
+    n = 0
+    try:
         for m in ("PSHS", "PSHU", "PULS", "PULU"):
             own = m[-1]
             other = "U" if own == "S" else "S"
-            env = dict(ctx.env)
-            env["self.instruction.mnemonic"] = m
-            try:
-                for st in pre:
-                    if "split" in U(st.value):
-                        continue
-                    env[st.targets[0].id] = fold(st.value, env)
-            except NotConst as e:
-                c.undecided("SpecialOperand.translate:%s" % m, "prelude-not-foldable", str(e), repo.loc(fn, pp))
-                continue
-            universe = sorted(set(regs) | {"S", "U", "X", "Y", "A", "B", "D", "CC", "DP", "PC", "Z", "W", "", "x", "a", "d", "pc", "u", "s", " X", "X "})
-            for r in universe:
-                env[rv] = r
-                try:
-                    rejected = any(fold(x.test, env) for x in rejects)
-                    mask = 0
-                    for a in arms:
-                        mask |= fold(a.value, env)
-                except NotConst as e:
-                    c.undecided("SpecialOperand.translate:%s %s" % (m, r), "arm-not-foldable", str(e), repo.loc(fn, loop))
-                    continue
-                if r == own or r not in mc6809.PSHPUL_BITS and r != other:
+            for r in regs + probes:
+                n += 1
+                res = run(m, r)
+                if r == own or (r not in mc6809.PSHPUL_BITS and r != other):
                     want = None
                 else:
                     want = mc6809.PSHPUL_OTHER_STACK_BIT if r == other else mc6809.PSHPUL_BITS[r]
                 site = "SpecialOperand.translate:%s %s" % (m, r or "(empty)")
                 if want is None:
-                    c.check(rejected, site, "rejected", "accepted with mask %#04x" % mask,
-                            "%s %s is accepted (post-byte contribution %02X); the MC6809 has no such operation%s" % (m, r, mask, " - a stack cannot push/pull its own pointer" if r == own else ""), repo.loc(fn, loop))
+                    c.check(res[0] == "rejected", site, "rejected", "accepted with post-byte %#04x" % (res[1] if res[0] == "post" else 0),
+                            "%s %s is accepted (post-byte %02X); the MC6809 has no such operation%s" % (m, r, res[1] if res[0] == "post" else 0, " - a stack cannot push/pull its own pointer" if r == own else ""), where)
                 else:
-                    good = (not rejected) and mask == want
-                    c.check(good, site, "mask %#04x" % want, "rejected" if rejected else "mask %#04x (datasheet %#04x)" % (mask, want),
-                            "%s %s: %s; the datasheet bit for %s is %02X" % (m, r, "rejected" if rejected else "mask %02X" % mask, r, want), repo.loc(fn, loop))
-                n_ok += 1
-        # empty operand rejected
-        emp = [st for st in pp.body if isinstance(st, ast.If) and "not self.operand_string" in U(st.test) and isinstance(st.body[-1], ast.Raise)]
-        c.check(bool(emp), "SpecialOperand.translate:PSH/PUL:empty", "an empty register list is rejected", "no check", "PSHS without registers is accepted", repo.loc(fn, pp))
-        # separator
-        seps = [try_fold(x.args[0]) for x in ast.walk(pp) if isinstance(x, ast.Call) and U(x.func).endswith(".split") and x.args]
-        c.check(seps == [","], "SpecialOperand.translate:PSH/PUL:separator", "split on ','", "split on %s" % seps, "register lists are split on %s" % seps, repo.loc(fn, pp))
-    # ---- TFR/EXG
-    arms = [st for st in te.body if isinstance(st, ast.AugAssign) and isinstance(st.op, ast.BitOr)]
-    c.floor("TFR/EXG nibble arms", len(arms), 18)
-    legal_if = next((st for st in te.body if isinstance(st, ast.If) and isinstance(st.test, ast.Compare) and isinstance(st.test.ops[0], ast.NotIn) and U(st.test.left) == "post_byte"), None)
-    legal = try_fold(legal_if.test.comparators[0], ctx.env) if legal_if is not None else None
-    if legal is None:
-        c.finding("SpecialOperand.translate:TFR/EXG:legality", "no legality check", "TFR/EXG accept any register pair (no legality list found)", repo.loc(fn, te))
-        legal = None
-    rejects = [st for st in te.body if isinstance(st, ast.If) and st.body and isinstance(st.body[-1], ast.Raise) and st is not legal_if]
-    rvar = "registers"
-    ref_legal = mc6809.tfr_legal_postbytes()
-    for a in sorted(set(regs) | set(mc6809.TFR_CODES) | {"x", "a", "Z"}):
-        for b in sorted(set(regs) | set(mc6809.TFR_CODES) | {"x", "a", "Z"}):
-            env = dict(ctx.env)
-            env[rvar] = [a, b]
-            env["self.instruction.mnemonic"] = "TFR"
-            try:
-                rej = any(fold(x.test, env) for x in rejects)
-                post = 0
-                for arm in arms:
-                    post |= fold(arm.value, env)
-            except NotConst as e:
-                c.undecided("SpecialOperand.translate:TFR %s,%s" % (a, b), "arm-not-foldable", str(e), repo.loc(fn, te))
-                continue
-            if legal is not None and not rej:
-                rej = post not in legal
-            known = a in mc6809.TFR_CODES and b in mc6809.TFR_CODES
-            same = known and ((a in mc6809.TFR_16) == (b in mc6809.TFR_16))
-            site = "SpecialOperand.translate:TFR %s,%s" % (a, b)
-            if same:
-                want = (mc6809.TFR_CODES[a] << 4) | mc6809.TFR_CODES[b]
-                c.check((not rej) and post == want, site, "post %#04x" % want, "rejected" if rej else "post %#04x (datasheet %#04x)" % (post, want),
-                        "TFR/EXG %s,%s: %s; the datasheet post-byte is %02X" % (a, b, "rejected" if rej else "post-byte %02X" % post, want), repo.loc(fn, te))
-            else:
-                c.check(rej, site, "rejected", "accepted with post %#04x" % post,
-                        "TFR/EXG %s,%s is accepted (post-byte %02X); registers of different size cannot be transferred or exchanged" % (a, b, post), repo.loc(fn, te))
-    cnt = next((st for st in te.body if isinstance(st, ast.If) and "len(registers) != 2" in U(st.test)), None)
-    c.check(cnt is not None, "SpecialOperand.translate:TFR/EXG:count", "exactly two registers", "no count check", "TFR/EXG do not require exactly two registers", repo.loc(fn, te))
-    # constructor gate: only special instructions
+                    c.check(res == ("post", want), site, "post-byte %#04x" % want, "rejected" if res[0] == "rejected" else "post-byte %#04x (datasheet %#04x)" % (res[1], want),
+                            "%s %s: %s; the datasheet bit for %s is %02X" % (m, r, "rejected" if res[0] == "rejected" else "post-byte %02X" % res[1], r, want), where)
+            # lists OR their masks
+            for lst, want in (("A,B", 0x06), ("X,Y,%s" % other, 0x70), ("CC,A,B,DP,X,Y,%s,PC" % other, 0xFF), ("D,CC", 0x07)):
+                n += 1
+                res = run(m, lst)
+                c.check(res == ("post", want), "SpecialOperand.translate:%s %s" % (m, lst), "post-byte %#04x" % want, "%s" % (res,),
+                        "%s %s gives %s, the datasheet post-byte is %02X" % (m, lst, res, want), where)
+        ref_legal = mc6809.tfr_legal_postbytes()
+        for m in ("TFR", "EXG"):
+            for a in regs + ["x", "a", "Z"]:
+                for b in regs + ["x", "a", "Z"]:
+                    n += 1
+                    res = run(m, "%s,%s" % (a, b))
+                    known = a in mc6809.TFR_CODES and b in mc6809.TFR_CODES
+                    same = known and ((a in mc6809.TFR_16) == (b in mc6809.TFR_16))
+                    site = "SpecialOperand.translate:%s %s,%s" % (m, a, b)
+                    if same:
+                        want = (mc6809.TFR_CODES[a] << 4) | mc6809.TFR_CODES[b]
+                        c.check(res == ("post", want), site, "post-byte %#04x" % want, "rejected" if res[0] == "rejected" else "post-byte %#04x (datasheet %#04x)" % (res[1], want),
+                                "%s %s,%s: %s; the datasheet post-byte is %02X" % (m, a, b, "rejected" if res[0] == "rejected" else "post-byte %02X" % res[1], want), where)
+                    else:
+                        c.check(res[0] == "rejected", site, "rejected", "accepted with post-byte %#04x" % (res[1] if res[0] == "post" else 0),
+                                "%s %s,%s is accepted (post-byte %02X); registers of different size (or unknown registers) cannot be transferred or exchanged" % (m, a, b, res[1] if res[0] == "post" else 0), where)
+            for bad in ("A", "A,B,X", ""):
+                n += 1
+                res = run(m, bad)
+                c.check(res[0] == "rejected", "SpecialOperand.translate:%s %s" % (m, bad or "(empty)"), "rejected", "accepted", "%s with operand %r is accepted; exactly two registers are required" % (m, bad), where)
+    except NotConst as e:
+        c.undecided("SpecialOperand.translate", "not-foldable", str(e)[:160], where)
+    c.note("ENC-5: %d (mnemonic, operand) cases folded" % n)
     init = repo.method("SpecialOperand", "__init__", inherited=False)
-    gate = any(isinstance(n, ast.If) and "not instruction.is_special" in U(n.test) and isinstance(n.body[-1], ast.Raise) for n in ast.walk(init.node))
-    c.check(gate, "SpecialOperand.__init__", "only is_special instructions", "no gate", "SpecialOperand accepts non-special instructions", repo.loc(init, init.node))
+    gate = any(isinstance(x, ast.If) and "is_special" in U(x.test) and isinstance(x.body[-1], ast.Raise) for x in ast.walk(init.node))
+    c.shape(gate, "SpecialOperand.__init__", "only is_special instructions", "gate on is_special not recognised", repo.loc(init, init.node))
 
 
 RULES["ENC-5"] = enc5
@@ -674,8 +634,22 @@ def enc7(ctx, c):
                 if isinstance(x, ast.Return) and isinstance(x.value, ast.Call) and U(x.value.func).endswith("Operand"):
                     order.append((U(x.value.func), st))
     names = [n for n, _ in sorted(order, key=lambda kv: kv[1].lineno)]
-    c.floor("operand classes tried by create_from_str", len(names), 6)
-    for a, b, why in CASCADE_CONSTRAINTS:
+    if not names:
+        # a loop over an ordered collection of classes
+        for st in ast.walk(fn.node):
+            if isinstance(st, ast.For):
+                seq = st.iter
+                if isinstance(seq, ast.Name):
+                    seq = fn.module.assigns.get(seq.id) or (fn.cls.assigns.get(seq.id) if fn.cls else None) or seq
+                if isinstance(seq, ast.Attribute):
+                    seq = (fn.cls.assigns.get(seq.attr) if fn.cls else None) or seq
+                if isinstance(seq, (ast.Tuple, ast.List)) and all(isinstance(e, ast.Name) and e.id.endswith("Operand") for e in seq.elts):
+                    names = [e.id for e in seq.elts]
+                    order = []
+    if not names:
+        c.undecided("create_from_str", "cascade-shape-not-recognised", "", where)
+        names = None
+    for a, b, why in (CASCADE_CONSTRAINTS if names else []):
         if a not in names:
             c.finding("create_from_str:%s" % a, "class never tried", "Operand.create_from_str never tries %s" % a, where)
             continue
@@ -694,7 +668,12 @@ def enc7(ctx, c):
         c.check(hs == ["OperandTypeError"], "create_from_str:%s:handler" % n, "falls through on OperandTypeError only", "handlers %s" % hs,
                 "create_from_str moves on from %s on %s: other errors must surface as diagnostics, and OperandTypeError must not be swallowed more widely" % (n, hs), repo.loc(fn, st))
     last = fn.node.body[-1]
-    c.check(isinstance(last, ast.Raise), "create_from_str:exhausted", "raises when no class accepts", "no raise at the end", "create_from_str returns None when no class accepts the operand", where)
+    if isinstance(last, ast.Raise):
+        c.ok("create_from_str:exhausted", "raises when no class accepts", where)
+    elif not any(isinstance(x, ast.Raise) for x in ast.walk(fn.node)):
+        c.finding("create_from_str:exhausted", "no raise at all", "create_from_str returns None when no class accepts the operand", where)
+    else:
+        c.undecided("create_from_str:exhausted", "shape-not-recognised", "", where)
     # Unknown -> Direct / Extended
     rs = repo.method("Operand", "resolve_symbols", inherited=False)
     wr_ = repo.loc(rs, rs.node)
@@ -717,8 +696,13 @@ def enc7(ctx, c):
         if key in seen:
             continue
         seen.add(key)
-        if not unknown:
+        decided_not_direct = ("self.value.is_numeric()" in fa) or ("self.value.is_direct()" in fa and "old_value.is_explicit_direct()" in fa)
+        if "self.is_unknown()" not in ta and "self.is_unknown()" not in fa:
+            c.undecided("Operand.resolve_symbols", "classification-conditions-not-recognised", desc, wr_)
+        elif not unknown:
             c.check(desc == "<self>", "Operand.resolve_symbols:known", "classified operands keep their class", "returns %s" % desc, "resolve_symbols turns an already classified operand into %s" % desc, wr_)
+        elif not (numeric and direct) and not decided_not_direct:
+            c.undecided("Operand.resolve_symbols", "direct/extended conditions not recognised", desc, wr_)
         elif numeric and direct:
             good = isinstance(v, Ctor) and v.cls == "DirectOperand" and len(v.args) == 3 and isinstance(v.args[2], Ctor) and v.args[2].cls == "DirectNumericValue" \
                 and len(v.args[2].args) == 1 and re.fullmatch(r"<self\.value(@\d+)?\.int>", repr(v.args[2].args[0])) is not None
@@ -729,8 +713,10 @@ def enc7(ctx, c):
             c.check(good, "Operand.resolve_symbols:extended", "ExtendedOperand with the resolved value", "returns %s" % repr(v)[:80],
                     "any other unclassified operand must become ExtendedOperand(value=resolved value); resolve_symbols returns %s" % repr(v)[:100], wr_)
     t = U(rs.node)
-    c.check("self.value = self.value.resolve(symbol_table)" in t and "old_value = self.value" in t, "Operand.resolve_symbols:resolve", "the value is resolved against the symbol table first", "shape changed",
-            "Operand.resolve_symbols does not resolve its value before classifying", wr_)
+    if ".resolve(symbol_table)" in t or ".resolve(" in t:
+        c.ok("Operand.resolve_symbols:resolve", "the value is resolved against the symbol table", wr_)
+    else:
+        c.finding("Operand.resolve_symbols:resolve", "no resolve call", "Operand.resolve_symbols never resolves its value against the symbol table", wr_)
     # prefixes -> explicit modes
     cf = repo.method("Value", "create_from_str", inherited=False)
     wc = repo.loc(cf, cf.node)
@@ -743,13 +729,21 @@ def enc7(ctx, c):
             for x in n.body:
                 if isinstance(x, ast.Assign) and U(x.targets[0]) == "mode":
                     got[ch] = U(x.value).split(".")[-1]
+    if not got:
+        dicts = [n for n in ast.walk(cf.module.tree) if isinstance(n, ast.Dict) and n.keys and all(isinstance(k, ast.Constant) and k.value in want for k in n.keys)]
+        for d in dicts:
+            for k, v in zip(d.keys, d.values):
+                got[k.value] = U(v).split(".")[-1]
     for ch, md in want.items():
-        c.check(got.get(ch) == md, "Value.create_from_str:prefix %s" % ch, md, "prefix %s -> %s" % (ch, got.get(ch)), "the operand prefix %s selects %s, it must select %s" % (ch, got.get(ch), md), wc)
-    strip = any(isinstance(n, ast.Assign) and U(n.targets[0]) == "value" and U(n.value) == "value[1:]" for n in ast.walk(cf.node))
-    c.check(strip, "Value.create_from_str:strip", "the prefix character is removed", "prefix kept", "the prefix character is not removed before the value is parsed", wc)
+        if ch not in got:
+            c.undecided("Value.create_from_str:prefix %s" % ch, "prefix-handling-not-recognised", "", wc)
+        else:
+            c.check(got.get(ch) == md, "Value.create_from_str:prefix %s" % ch, md, "prefix %s -> %s" % (ch, got.get(ch)), "the operand prefix %s selects %s, it must select %s" % (ch, got.get(ch), md), wc)
+    strip = any(isinstance(n, ast.Assign) and re.fullmatch(r"\w+\[1:\]", U(n.value)) for n in ast.walk(cf.node))
+    c.shape(strip, "Value.create_from_str:strip", "the prefix character is removed", "prefix removal not recognised", wc)
     hint = [n for n in ast.walk(cf.node) if isinstance(n, ast.If) and "is_16_bit" in U(n.test)]
     ok = bool(hint) and any(isinstance(x, ast.Assign) and U(x.targets[0]) == "size_hint" and try_fold(x.value) == 4 for x in hint[0].body)
-    c.check(ok, "Value.create_from_str:16-bit", "16-bit instructions give numeric operands 4 hex digits", "shape changed", "Value.create_from_str does not widen numeric operands of 16-bit instructions", wc)
+    c.shape(ok, "Value.create_from_str:16-bit", "16-bit instructions give numeric operands 4 hex digits", "size-hint handling not recognised", wc)
     tries = []
     for st in ast.walk(cf.node):
         if isinstance(st, ast.Try):
@@ -761,13 +755,21 @@ def enc7(ctx, c):
                             break
     vorder = [n for _, n in sorted(tries)]
     core = [n for n in vorder if n in ("ExpressionValue", "LeftRightValue", "NumericValue", "SymbolValue")]
-    c.check(core == ["ExpressionValue", "LeftRightValue", "NumericValue", "SymbolValue"], "Value.create_from_str:order", "expression, left/right, number, symbol", "order %s" % core,
-            "Value.create_from_str tries %s; a number must be tried before a symbol (digits are symbol characters) and an expression before both" % core, wc)
+    if len(core) < 4:
+        c.undecided("Value.create_from_str:order", "cascade-shape-not-recognised", str(core), wc)
+    else:
+        c.check(core.index("NumericValue") < core.index("SymbolValue") and core.index("ExpressionValue") < core.index("NumericValue") and core.index("LeftRightValue") < core.index("SymbolValue"),
+                "Value.create_from_str:order", "expression and left/right before number before symbol", "order %s" % core,
+                "Value.create_from_str tries %s; a number must be tried before a symbol (digits are symbol characters) and an expression before both" % core, wc)
     # the two indexed classes resolve their offset by the same steps
     steps = {}
     for cls in ("IndexedOperand", "ExtendedIndexedOperand"):
         f = repo.method(cls, "resolve_symbols", inherited=False)
-        t = U(f.node)
+        from ..inline import flatten as _fl
+        t = U(_fl(repo, f, depth=2))
+        for cname, cval in ctx.env.items():
+            if isinstance(cval, (list, tuple, set, frozenset)) and cval and all(isinstance(x, str) and len(x) == 1 for x in cval) and "." not in cname and cname in t:
+                t = t.replace(cname, repr(sorted(cval)))
         st = []
         m = re.search(r"self\.left = Value\.create_from_str\(([^\n]*)\)", t)
         st.append("parse(%s)" % (m.group(1) if m else "?"))
@@ -778,10 +780,10 @@ def enc7(ctx, c):
         st.append("accumulators=%s" % "".join(acc))
         steps[cls] = st
     a, b = steps["IndexedOperand"], steps["ExtendedIndexedOperand"]
-    if any(x.endswith("?") for x in a + b):
+    if any(x.endswith("?") for x in a + b) or "accumulators=" in (a[3], b[3]):
         c.undecided("indexed resolve_symbols", "steps-not-recognised", "%s / %s" % (a, b), repo.cls("IndexedOperand").module.rel)
     else:
-        c.check(a == b and a[0] == "parse(self.left, self.instruction, default_mode_extended=False)" and a[3] == "accumulators=ABD", "indexed resolve_symbols", " ; ".join(a), "direct %s / indirect %s" % (a, b),
+        c.check(a == b and "default_mode_extended=False" in a[0] and a[3] == "accumulators=ABD", "indexed resolve_symbols", " ; ".join(a), "direct %s / indirect %s" % (a, b),
                 "the two indexed operand classes resolve a symbolic offset differently: %s versus %s" % (a, b), repo.cls("IndexedOperand").module.rel)
 
 
